@@ -28,7 +28,8 @@ type Text struct {
 	T   string `json:"t"`
 }
 
-var positions = []string{"pkgdoc", "funcdoc", "structdoc", "constdoc", "consttrail", "strlit", "rawstrlit", "panicmsg", "logprintf", "lograw", "fmtprintln"}
+var positions = []string{"pkgdoc", "funcdoc", "structdoc", "constdoc", "consttrail", "strlit", "rawstrlit", "panicmsg", "logprintf", "lograw", "fmtprintln",
+	"strconst", "strconcat", "panicconst", "panicconcat", "logconst"}
 
 func lineComment(t string) string {
 	var sb strings.Builder
@@ -65,6 +66,16 @@ func source(p Text) string {
 		return "package q\n\nimport \"log\"\n\nfunc F() uint64 {\n\tlog.Printf(" + strconv.Quote(t) + ")\n\treturn 1\n}\n\nfunc G() uint64 {\n\treturn 2\n}\n"
 	case "lograw":
 		return "package q\n\nimport \"log\"\n\nfunc F() uint64 {\n\tlog.Printf(`" + t + "`)\n\treturn 1\n}\n\nfunc G() uint64 {\n\treturn 2\n}\n"
+	case "strconst":
+		return "package q\n\nconst M = " + strconv.Quote(t) + "\n\nfunc F() string {\n\treturn M\n}\n\nfunc G() uint64 {\n\treturn 2\n}\n"
+	case "strconcat":
+		return "package q\n\nfunc F(s string) string {\n\treturn s + " + strconv.Quote(t) + "\n}\n\nfunc G() uint64 {\n\treturn 2\n}\n"
+	case "panicconst":
+		return "package q\n\nconst M = " + strconv.Quote(t) + "\n\nfunc F(n uint64) uint64 {\n\tif n == 0 {\n\t\tpanic(M)\n\t}\n\treturn 1\n}\n\nfunc G() uint64 {\n\treturn 2\n}\n"
+	case "panicconcat":
+		return "package q\n\nconst K = \"k\"\n\nfunc F(n uint64) uint64 {\n\tif n == 0 {\n\t\tpanic(\"a \" + K + " + strconv.Quote(t) + ")\n\t}\n\treturn 1\n}\n\nfunc G() uint64 {\n\treturn 2\n}\n"
+	case "logconst":
+		return "package q\n\nimport \"log\"\n\nconst M = " + strconv.Quote(t) + "\n\nfunc F() uint64 {\n\tlog.Printf(M)\n\treturn 1\n}\n\nfunc G() uint64 {\n\treturn 2\n}\n"
 	case "fmtprintln":
 		return "package q\n\nimport \"fmt\"\n\nfunc F() uint64 {\n\tfmt.Println(" + strconv.Quote(t) + ", 1)\n\treturn 1\n}\n\nfunc G() uint64 {\n\treturn 2\n}\n"
 	}
@@ -241,7 +252,7 @@ func partText(tier, goose, work string, acc *ev.Acc, only *Text) {
 		for name, wb := range want.bodies {
 			gb := got.bodies[name]
 			switch it.p.Pos {
-			case "strlit", "rawstrlit":
+			case "strlit", "rawstrlit", "strconst", "strconcat", "panicconst", "panicconcat", "logconst":
 				wb = strings.ReplaceAll(wb, `#(str"x")`, fmt.Sprintf("#(str%q)", it.p.T))
 			case "panicmsg":
 				wb = strings.ReplaceAll(wb, `"x"`, fmt.Sprintf("%q", it.p.T))
@@ -416,7 +427,7 @@ func main() {
 	os.RemoveAll(work)
 	os.Exit(acc.Done(ev.Finish{
 		Prop: "C05", Tier: *tier, Level: "exploration", Start: start,
-		Rule:        "(a) every string of <=2 (thorough <=3) tokens over {(*, *), (, *, ), \", newline, space, x, é} at 11 text positions (package / function / struct / constant doc comments, trailing constant comment, interpreted and raw string literals, panic message, log.Printf with interpreted and raw strings, fmt.Println), one package each, translated by the real goose; the file must lex under Coq's rules (nested comments, strings inside comments), Coq must see the same sentence list as with neutral text, and every body must equal the neutral body up to the literal itself (a rejected package is acceptable). (b) every parent/child/side nesting of the 10 arithmetic, 6 comparison and 2 boolean operators plus unary, call-argument, index, deref, field, conversion, store, condition, struct-literal, slice-bound, tuple and append contexts (thorough: + depth 3 over 5 non-associative operators), at two statement positions, read with Coq's precedences and interpreted: the value must equal Go's on 28 input vectors. (c) a fixture with an interface conversion, comments and constants needed at three call sites, comments and constants under all 8 flag combinations: the same list of definitions (names, order, multiplicity) with identical bodies",
+		Rule:        "(a) every string of <=2 (thorough <=3) tokens over {(*, *), (, *, ), \", newline, space, x, é} at 16 text positions (package / function / struct / constant doc comments, trailing constant comment, interpreted and raw string literals, string constants, a concatenation operand, panic message as a literal / a named constant / a constant concatenation, log.Printf with interpreted, raw and constant strings, fmt.Println), one package each, translated by the real goose; the file must lex under Coq's rules (nested comments, strings inside comments), Coq must see the same sentence list as with neutral text, and every body must equal the neutral body up to the literal itself (a rejected package is acceptable). (b) every parent/child/side nesting of the 10 arithmetic, 6 comparison and 2 boolean operators plus unary, call-argument, index, deref, field, conversion, store, condition, struct-literal, slice-bound, tuple and append contexts (thorough: + depth 3 over 5 non-associative operators), at two statement positions, read with Coq's precedences and interpreted: the value must equal Go's on 28 input vectors. (c) a fixture with an interface conversion, comments and constants needed at three call sites, comments and constants under all 8 flag combinations: the same list of definitions (names, order, multiplicity) with identical bodies",
 		Assumptions: []string{"Coq's lexer and the levels of the GooseLang notations are modelled by mc/gl (standard levels for * + = < && || ~, level 35 for the backquoted infixes and shifts)", "nesting is judged by value on boundary inputs, not by tree isomorphism with the translator's internal tree"},
 		Extra:       map[string]any{"distinct_nontrivial": len(acc.Sets["nontrivial"])},
 	}))
